@@ -277,7 +277,9 @@ func runC13(t *testing.T, c *choice.Stream, r *Result, opt RunOpt) {
 			// every later packet at the negotiated revision, both directions
 			derr := cl.Do(ctx, rs.query)
 			rs.checkOutcome(r, derr, "q")
-			if derr != nil && !ch.IsException(derr) {
+			if _, we, _ := rs.expected(); derr != nil && (!ch.IsException(derr) || we == "callback") {
+				// the query was meant to fail on the client's side (a callback's own
+				// error, which may even wrap an exception): the client cancels and closes
 				return
 			}
 			cq := &c02Query{sc: &queryScenario{kind: "select"}, q: rs.query}
